@@ -20,13 +20,14 @@ static const char *const fault_names[] = { "thread_preempt", "irq_inject", "put_
 					   "get_refused_empty", "stall", NULL };
 enum { P_WRAPPED, P_FULL_WHILE_GET_IN_FLIGHT, P_EMPTY_WHILE_PUT_IN_FLIGHT, P_PUTCHAR_SPUN,
        P_BIG_RING, P_LEN2, P_IRQ_IN_PUT, P_IRQ_IN_GET, P_MODE_THR, P_MODE_IRQ_PROD, P_MODE_IRQ_CONS,
-       P_HIGH_BYTE, P_OVERLAP, P_HUGE_RING, P_LONG_LIVED };
+       P_HIGH_BYTE, P_OVERLAP, P_HUGE_RING, P_LONG_LIVED, P_SECOND_RING_PUT, P_INIT_EXPRESSIONS };
 static const char *const probe_names[] = {
 	"index_wrapped", "put_refused_while_get_in_flight", "get_empty_while_put_in_flight",
 	"putchar_had_to_spin", "ring_of_64_or_more", "ring_of_length_2", "interrupt_inside_put",
 	"interrupt_inside_get", "mode_threads", "mode_irq_producer", "mode_irq_consumer",
 	"byte_value_128_or_more", "put_and_get_overlapped", "ring_longer_than_65534_bytes",
-	"more_than_65534_bytes_through_one_ring", NULL };
+	"more_than_65534_bytes_through_one_ring", "byte_put_into_a_second_ring",
+	"static_initialiser_given_expression_arguments", NULL };
 
 #define MAXOPS 96
 
@@ -136,6 +137,25 @@ static void do_get(bool only_empty)
 
 static bool producer_done, keep_draining;
 
+/* a second, unrelated ring (its descriptor a chosen distance from the first): whoever is not
+ * the producer of the first ring is the only producer of this one; it is drained at the end */
+static ringbuf_t *rb2;
+static uint8_t *store2;
+static uint32_t b_put;
+static bool two_rings;
+#define B_LEN 64
+
+static void other_ring_put(void)
+{
+	if (!two_rings || b_put >= B_LEN - 1)
+		return;
+	sim_probe(P_SECOND_RING_PUT);
+	if (!ringbuf_put(rb2, (uint8_t)(b_put * 7 + 3)))
+		sim_fail(NULL, "SPURIOUS_FULL:second_ring",
+			 "ringbuf_put on a second, unrelated ring of %u bytes was refused with %u bytes in it", B_LEN, b_put);
+	b_put++;
+}
+
 static void producer(void *arg)
 {
 	(void)arg;
@@ -149,8 +169,11 @@ static void producer(void *arg)
 static void consumer(void *arg)
 {
 	(void)arg;
-	while (cnext < ncops)
+	while (cnext < ncops) {
 		do_get(cops[cnext++]);
+		if (mode == 1 && sim_choose(2))
+			other_ring_put();	/* this context is the producer of the other ring */
+	}
 	/* a spinning ringbuf_putchar needs a consumer that keeps consuming */
 	while (keep_draining && !producer_done) {
 		do_get(false);
@@ -177,6 +200,8 @@ static void irq_handler(int depth)
 		uint32_t n = 1 + sim_choose(3);
 		for (uint32_t i = 0; i < n && cnext < ncops; i++)
 			do_get(cops[cnext++]);
+		if (sim_choose(2))
+			other_ring_put();	/* the interrupt is the producer of the other ring */
 	}
 }
 
@@ -225,17 +250,37 @@ static void run(void)
 	sim_ev("hdr", mode, buf_len, prerotate);
 
 	store = sim_alloc_guarded(buf_len, 32, 0xd7);
-	rb = sim_alloc_guarded(sizeof(*rb), 16, 0x7d);
+	/* both descriptors in one block, a chosen distance apart (whole KiB, or nothing special) */
+	static const uint32_t spacings[] = { 1024, 2048, 64, 1000 };
+	uint32_t spacing = spacings[sim_choose(4)];
+	two_rings = mode != 0 && sim_choose(2);
+	uint8_t *descs = sim_alloc_guarded(spacing + sizeof(ringbuf_t), 16, 0x7d);
+	rb = (ringbuf_t *)descs;
+	rb2 = (ringbuf_t *)(descs + spacing);
+	store2 = sim_alloc_guarded(B_LEN, 32, 0xd7);
+	b_put = 0;
 	simrt_region_add(store, buf_len, SIMRT_SHARED, "ring-storage");
 	simrt_region_add(rb, sizeof(*rb), SIMRT_SHARED, "ring-descriptor");
+	simrt_region_add(store2, B_LEN, SIMRT_SHARED, "second-ring-storage");
+	simrt_region_add(rb2, sizeof(*rb2), SIMRT_SHARED, "second-ring-descriptor");
 	simrt_bounds(true);
 	sim_budget(400000 + 40ull * prerotate + 40ull * prefill);
-	if (sim_choose(2)) {
+	uint32_t how = sim_choose(3);
+	if (how == 0) {
 		ringbuf_init(rb, store, buf_len);
-	} else {
+	} else if (how == 1) {
 		ringbuf_t v = RINGBUF_VAR_INIT(store, buf_len);
 		memcpy(rb, &v, sizeof(v));
+	} else {
+		/* the static initialiser is a macro: its arguments may be expressions (the storage
+		 * at an offset into a pool of words; the guard in front of it plays the pool) */
+		uint32_t *pool = (uint32_t *)(store - 8);
+		uint32_t la = buf_len - 1, lb = 1;
+		ringbuf_t v = RINGBUF_VAR_INIT(pool + 2, la + lb);
+		memcpy(rb, &v, sizeof(v));
+		sim_probe(P_INIT_EXPRESSIONS);
 	}
+	ringbuf_init(rb2, store2, B_LEN);
 
 	n_put_ok = n_put_inv_ok = n_get_ok = 0;
 	put_in_flight = get_in_flight = false;
@@ -309,6 +354,12 @@ static void run(void)
 	int d = ringbuf_get(rb);
 	if (d != -1 || !ringbuf_empty(rb))
 		sim_fail(NULL, "FIFO:phantom", "after all %u bytes were delivered the ring still returned %d", n_put_ok, d);
+	for (uint32_t i = 0; two_rings && i <= b_put; i++) {
+		int b = ringbuf_get(rb2);
+		int want = i < b_put ? (uint8_t)(i * 7 + 3) : -1;
+		if (b != want)
+			sim_fail(NULL, "FIFO:second_ring", "get number %u on the second ring returned %d, expected %d (%u bytes were put)", i, b, want, b_put);
+	}
 	sim_check_guards();
 }
 
